@@ -426,8 +426,11 @@ class Report:
             'violations': len(self.violations),
         }
         ev['coverage'].update(self.extra)
-        os.makedirs(os.path.join(VERIF, 'evidence'), exist_ok=True)
-        with open(os.path.join(VERIF, 'evidence', self.prop + '.json'), 'w') as f:
+        # VERIF_EVIDENCE_DIR: scratch location used when a check is exercised against a deliberately broken tree (seeded changes),
+        # so that the committed evidence always comes from a run on /repo as it is
+        evdir = os.environ.get('VERIF_EVIDENCE_DIR') or os.path.join(VERIF, 'evidence')
+        os.makedirs(evdir, exist_ok=True)
+        with open(os.path.join(evdir, self.prop + '.json'), 'w') as f:
             json.dump(ev, f, indent=1, default=str)
         for k in self.known:
             log('KNOWN-FINDING: property=%s %s' % (self.prop, k))
